@@ -63,3 +63,7 @@ pub use message::Message;
 
 #[cfg(all(feature = "std", feature = "random"))]
 pub use mnemonic::generate_mnemonic_phrase;
+
+/// Verification hook: see `secp256::backend::verif_k1` (add-only, guarded).
+#[cfg(all(fuellabs_fuel_vm_verif, feature = "std"))]
+pub use secp256::backend::verif_k1;
